@@ -415,6 +415,26 @@ func Gen02(t *rapid.T) Case02 {
 			c.Input = B(gen.Ref(t, "ref", gen.SchemeOf(string(c.Base))))
 		}
 	}
+	if hasOpt(c.Opts, "special-map") && rapid.IntRange(0, 1).Draw(t, "schemeDance") == 0 {
+		// an altered special-scheme table: scheme changes and resolutions around "file" and the removed
+		// / added schemes, where the standard's invariants (file has a host, special has a path) no
+		// longer protect the code
+		c.Input, c.HasBase = B(gen.Pick(t, "sdstart", []string{"foo:/dir/doc", "file:/x", "file:///C:/x", "http://h/p", "foo://h/p", "file:x", "gopher://h:70/", "ws://h/", "foo:opaque"})), false
+		for i, k := 0, rapid.IntRange(1, 6).Draw(t, "sdops"); i < k; i++ {
+			reg := rapid.IntRange(0, 2).Draw(t, "sdreg")
+			switch rapid.IntRange(0, 3).Draw(t, "sdkind") {
+			case 0, 1:
+				c.Ops = append(c.Ops, Op02{Kind: "set", Reg: reg, Setter: spec.SetterProtocol, Value: B(gen.Pick(t, "sdproto", []string{"file", "foo", "http", "ws", "gopher", "https", "bar"}))})
+			case 2:
+				c.Ops = append(c.Ops, Op02{Kind: "resolve", Reg: reg, Value: B(gen.Pick(t, "sdref", []string{"/x", "x", "//h/x", "C|/y", "?q", "#f", "..", "", "\\x", "/C:/z", "file:/w", "///y"}))})
+			default:
+				w := gen.Pick(t, "sdsetter", []string{"host", "hostname", "port", "pathname", "username"})
+				idx := map[string]int{"host": spec.SetterHost, "hostname": spec.SetterHostname, "port": spec.SetterPort, "pathname": spec.SetterPathname, "username": spec.SetterUsername}[w]
+				c.Ops = append(c.Ops, Op02{Kind: "set", Reg: reg, Setter: idx, Value: B(gen.SetterValue(t, "sdvalue", idx))})
+			}
+		}
+		return c
+	}
 	if rapid.IntRange(0, 5).Draw(t, "juggle") == 0 {
 		// parameter-list juggling: several URL values, lists handed from one to another, then every
 		// kind of use of every value (a list that changed owner must keep working for all of them)
